@@ -120,6 +120,18 @@ def _gen_case(seed, tier, index=0):
         opts["template"] = "pycommented"
     if opts.get("template"):
         extra = A.template_files([opts["template"]])
+        if rng.chance(0.5):
+            # the other variant of the same template name next to it: X.jinja2 is preferred over X.commented.jinja2,
+            # however the directory happens to be listed
+            fn = A.TEMPLATES[opts["template"]][0]
+            stem = fn.split(".")[0]
+            other = f"{stem}.jinja2" if ".commented." in fn else f"{stem}.commented.jinja2"
+            extra.append({"path": f".reuse/templates/{other}", "content": "{% for copyright_line in copyright_lines %}\n"
+                          + ("# " if ".commented." in other else "") + "{{ copyright_line }}\n{% endfor %}\n"
+                          + ("# " if ".commented." in other else "") + "Another variant\n"
+                          + "{% for expression in spdx_expressions %}\n" + ("# " if ".commented." in other else "")
+                          + "SPDX-License-Identifier: {{ expression }}\n{% endfor %}\n"})
+            extra += [{"path": f".reuse/templates/{x}", "content": "unrelated\n"} for x in ("aaa.jinja2", "zzz.commented.jinja2")]
         if not A.TEMPLATES[opts["template"]][2] and not (opts["holders"] or opts["licenses"]):
             # a template that renders no contributors needs something it does render, else the header carries no tag at all
             opts["holders"] = ["Jane Doe"]
@@ -139,6 +151,10 @@ def _gen_case(seed, tier, index=0):
         _cross_seed(case, rng)
     if rng.chance(0.12):
         _stdout_dies(case, rng)
+    if rng.chance(0.5):
+        # the file system lists directories in another order for every command
+        for st in case["variants"][0]["steps"]:
+            st["readdir_key"] = rng.randrange(1 << 30)
     return case
 
 
@@ -150,8 +166,23 @@ def _stdout_dies(case, rng):
         st["stdout_fail_after"] = rng.pick([0, 10, 40, 120])
 
 
+ISO_EDGE_FIRST = ["2023-01-01T00:00:01", "2022-01-01T10:00:00", "2022-01-02T23:59:59", "2021-01-03T12:00:00", "2027-01-02T08:00:00",
+                  "2028-01-01T00:30:00", "2016-01-03T09:00:00"]   # calendar year one more than the ISO-week year
+ISO_EDGE_LAST = ["2024-12-30T09:00:00", "2024-12-31T23:59:58", "2025-12-29T12:00:00", "2019-12-30T00:00:01", "2030-12-31T18:00:00",
+                 "2026-12-31T23:00:00", "2020-02-29T12:00:00"]    # calendar year one less than the ISO-week year (and a leap day)
+
+
 def _clocks(rng, n):
     import datetime
+    if rng.chance(0.2):
+        # the edges of the calendar: days on which the ISO-week year, or a clock in another time zone, names another year
+        if rng.chance(0.5):
+            first = datetime.datetime.fromisoformat(rng.pick(ISO_EDGE_FIRST))
+            rest = sorted(rng.sample(range(5 * 86400, 300 * 86400), n - 1))
+            return [first.isoformat(timespec="seconds")] + [(first + datetime.timedelta(seconds=s)).isoformat(timespec="seconds") for s in rest]
+        last = datetime.datetime.fromisoformat(rng.pick(ISO_EDGE_LAST))
+        back = sorted(rng.sample(range(5 * 86400, 40 * 86400), n - 1), reverse=True)
+        return [(last - datetime.timedelta(seconds=s)).isoformat(timespec="seconds") for s in back] + [last.isoformat(timespec="seconds")]
     year = rng.pick([2023, 2024, 2031])
     secs = sorted(rng.sample(range(0, 360 * 86400), n))
     return [(datetime.datetime(year, 1, 1) + datetime.timedelta(seconds=s)).isoformat(timespec="seconds") for s in secs]
